@@ -24,6 +24,8 @@ OBLIGATIONS = [NS + t for t in [
     "default_ranges_multi", "rule_bounds", "relabel_append", "relabel_injective", "relabel_pairs_injective", "relabel_pairs_injective_general", "example_latents",
     "example2_latents", "example_likelihood_sites", "example_linked_values",
 ]]
+# kernels whose translated source text (Gen/Kernels.lean) is proved equal to the model kernel this property's theorems are about
+GEN_KERNELS = ["restrict_func"]
 MIRRORED_FILES = ["pysersic/multiband.py", "pysersic/priors.py"]
 ASSUMPTIONS = [
     "scipy B-spline design matrices enter as data; rows non-negative and summing to one is checked on the real matrices each run",
